@@ -44,7 +44,7 @@ type scenario struct {
 	play    []string // play events after a successful PLAY; the last one is terminal
 	keep    bool     // route.KeepAlive
 	rtsp    bool     // the requester is a real RTSP session (DESCRIBE over a net.Pipe) instead of a direct media.GetOrCreate call
-	builtin bool     // run under the built-in NetTimeout (thorough tier only; not part of the case line)
+	builtin bool     // run under the built-in NetTimeout instead of the shortened one (thorough tier / search / replay)
 }
 
 func (s *scenario) line() string {
@@ -54,7 +54,11 @@ func (s *scenario) line() string {
 		}
 		return strings.Join(x, ",")
 	}
-	return fmt.Sprintf("user=%s listen=%s urlpath=%s keep=%s rtsp=%s sdp=%s script=%s play=%s", B01(s.user), B01(s.listen), B01(s.urlPath), B01(s.keep), B01(s.rtsp), s.sdp, j(s.script), j(s.play))
+	l := fmt.Sprintf("user=%s listen=%s urlpath=%s keep=%s rtsp=%s sdp=%s script=%s play=%s", B01(s.user), B01(s.listen), B01(s.urlPath), B01(s.keep), B01(s.rtsp), s.sdp, j(s.script), j(s.play))
+	if s.builtin {
+		l += " builtin=1"
+	}
+	return l
 }
 
 func parseScenario(kv map[string]string) *scenario {
@@ -64,7 +68,7 @@ func parseScenario(kv map[string]string) *scenario {
 		}
 		return strings.Split(x, ",")
 	}
-	return &scenario{user: kv["user"] == "1", listen: kv["listen"] == "1", urlPath: kv["urlpath"] == "1", keep: kv["keep"] == "1", rtsp: kv["rtsp"] == "1", sdp: kv["sdp"], script: sp(kv["script"]), play: sp(kv["play"])}
+	return &scenario{user: kv["user"] == "1", listen: kv["listen"] == "1", urlPath: kv["urlpath"] == "1", keep: kv["keep"] == "1", rtsp: kv["rtsp"] == "1", sdp: kv["sdp"], script: sp(kv["script"]), play: sp(kv["play"]), builtin: kv["builtin"] == "1"}
 }
 
 const sdpHead = "v=0\r\no=- 0 0 IN IP4 127.0.0.1\r\ns=cam\r\nc=IN IP4 127.0.0.1\r\nt=0 0\r\n"
@@ -153,14 +157,16 @@ var (
 	patient  int32
 )
 
+// (the NetTimeout in force is added: where the camera goes silent the awaited event IS the expiry of that timeout)
 func bound() time.Duration {
+	nt := time.Duration(atomic.LoadInt64(&netTimeoutNs))
 	if atomic.LoadInt32(&patient) == 1 {
-		return patience
+		return patience + nt
 	}
 	if atomic.LoadInt32(&timeouts) >= 3 {
-		return 3 * time.Second
+		return 3*time.Second + nt
 	}
-	return settle
+	return settle + nt
 }
 
 // waitFor: poll cond until it holds; the budget costs nothing when the event arrives
@@ -943,6 +949,7 @@ func classOf(verdict string) string {
 
 // timing of one phase: the NetTimeout override and the derived hang watchdog
 var hangNs int64 = int64(50 * time.Second)
+var netTimeoutNs int64 = int64(12 * time.Second)
 
 func hangAfter() time.Duration { return time.Duration(atomic.LoadInt64(&hangNs)) }
 
@@ -951,6 +958,7 @@ func setPhase(nt time.Duration) {
 	if nt == 0 { // no override: the built-in NetTimeout (45 s, a regenerated fact)
 		nt = 45 * time.Second
 	}
+	atomic.StoreInt64(&netTimeoutNs, int64(nt))
 	h := 4*nt + 2*time.Second // the requester not back after 4 × NetTimeout: reported as a hang
 	if atomic.LoadInt32(&patient) == 1 {
 		h += 20 * time.Second
@@ -1101,12 +1109,22 @@ func runC20(c *Ctx) {
 			scs = append(scs, genScenario(c.Rng))
 		}
 	}
-	var quiet, silent []int
+	if (c.Thorough() || c.Search) && c.Replay == "" {
+		// silence under the BUILT-IN timeout (no override): the handshake read and the play loop really run under
+		// a deadline when nothing shortens it (45 s each: thorough tier and search only)
+		scs = append(scs,
+			&scenario{listen: true, urlPath: true, sdp: "v", script: []string{"ok", "sil"}, play: []string{"eof"}, builtin: true},
+			&scenario{listen: true, urlPath: true, sdp: "v", play: []string{"p0", "sil"}, builtin: true})
+	}
+	var quiet, silent, builtin []int
 	for i, s := range scs {
 		s.id = i
-		if hasSilence(s) {
+		switch {
+		case s.builtin:
+			builtin = append(builtin, i)
+		case hasSilence(s):
 			silent = append(silent, i)
-		} else {
+		default:
 			quiet = append(quiet, i)
 		}
 	}
@@ -1117,19 +1135,7 @@ func runC20(c *Ctx) {
 	// phase B: the scenarios in which the camera goes silent: the client's own timeout has to expire
 	setPhase(2500 * time.Millisecond)
 	runBatches(scs, silent, obs, "b")
-	if c.Thorough() && c.Replay == "" {
-		// phase C: silence under the BUILT-IN timeout (no override): the handshake read and the play loop really
-		// run under a deadline when nothing shortens it
-		var builtin []int
-		for _, sc := range []*scenario{
-			{listen: true, urlPath: true, sdp: "v", script: []string{"ok", "sil"}, play: []string{"eof"}, builtin: true},
-			{listen: true, urlPath: true, sdp: "v", play: []string{"p0", "sil"}, builtin: true},
-		} {
-			sc.id = len(scs)
-			builtin = append(builtin, len(scs))
-			scs = append(scs, sc)
-			obs = append(obs, nil)
-		}
+	if len(builtin) > 0 { // phase C: the built-in timeout
 		setPhase(0)
 		runBatches(scs, builtin, obs, "c")
 		c.CountN("silence-under-the-built-in-timeout", len(builtin))
@@ -1189,6 +1195,12 @@ func runC20(c *Ctx) {
 		started := time.Now()
 		var l2 []string
 		var done []int
+		firstClass := map[int]string{}
+		firstObs := map[int]string{}
+		for _, i := range again {
+			firstClass[i] = failClass(scs[i], obs[i], KV(outs[i]))
+			firstObs[i] = obs[i].String() + " " + strings.Join(obs[i].notes, "; ")
+		}
 		for _, i := range again {
 			if time.Since(started) > 6*time.Minute { // a broken tree: enough has been confirmed
 				unconfirmed[i] = true
@@ -1208,6 +1220,7 @@ func runC20(c *Ctx) {
 			lines[i], outs[i] = l2[k], o2[k]
 			if failClass(scs[i], obs[i], KV(outs[i])) == "" {
 				c.Count("first-run-disagreement-not-reproduced-alone")
+				c.Note(fmt.Sprintf("parallel first run only (%s), not reproduced alone: c20 pull %s | first run: %s", firstClass[i], scs[i].line(), firstObs[i]))
 			} else {
 				c.Count("first-run-disagreement-confirmed-alone")
 			}
